@@ -615,6 +615,23 @@ def cli_run(spec: Dict[str, Any]) -> Dict[str, Any]:
     sim.log.add("argv", [a if not a.startswith(root) else sim.rel(a) for a in spec["argv"]])
     sys_path_before = list(sys.path)
     try:
+        if spec.get("other_tree_first"):
+            other_root = root + "_other"
+            materialise(other_root, spec["other_tree_first"])
+            os.chdir(other_root)
+            try:
+                main_mod.main([a.replace(root, other_root) for a in spec["argv"]])
+            except BaseException:  # noqa: BLE001
+                pass
+            finally:
+                os.chdir(root)
+                shutil.rmtree(other_root, ignore_errors=True)
+            sim.stats.inc("fault.earlier_cli_run_over_another_tree_in_same_process")
+            del sim.events[:]
+            del sim.pass_files[:]
+            del sim.pass_results[:]
+            del ff_returns[:]
+            sim.pass_no = 0
         if spec.get("phase1_files"):
             # history inside one process: a first CLI run over an earlier version of the tree, then the
             # files are put (back) to the version under test and the run that is judged follows
@@ -845,6 +862,10 @@ def generate(rng: random.Random, profile: Optional[Dict[str, Any]] = None) -> Di
             rng.shuffle(case["paths"])
             case["tree_meta"] = {"clients": tree["clients"]}
             case["safe"] = rng.random() < 0.3
+            if rng.random() < 0.35:
+                # an earlier run of the same process formatted *another* project (other directory) whose
+                # modules have the same names but another layout
+                case["other_tree_first"] = P.rewired_tree(tree["files"], tree["base"])
         for _ in range(k):
             s = gen_sched(rng, len(tree["files"]))
             s["paths"] = list(case["paths"])
@@ -1117,7 +1138,7 @@ def execute(case: Dict[str, Any]) -> Dict[str, Any]:
     fault_batch = bool(case.get("fault"))
     try:
         ref_spec = {
-            "root": root, "files": case["files"], "phase1_files": case.get("phase1_files"),
+            "root": root, "files": case["files"], "phase1_files": case.get("phase1_files"), "other_tree_first": case.get("other_tree_first"),
             "argv": _argv(case, case["paths"], root, 1),
             "sched": {"strategy": "first", "granule": 1 << 30, "fault": case.get("fault")},
         }
@@ -1140,7 +1161,7 @@ def execute(case: Dict[str, Any]) -> Dict[str, Any]:
             violations += P.imports_check(case, ref, stats)
         for ri, s in enumerate(case["runs"]):
             spec = {
-                "root": root, "files": case["files"], "phase1_files": case.get("phase1_files"),
+                "root": root, "files": case["files"], "phase1_files": case.get("phase1_files"), "other_tree_first": case.get("other_tree_first"),
                 "argv": _argv(case, s.get("paths") or case["paths"], root, s["n_cores"]),
                 "sched": dict(s, fault=case.get("fault")),
             }
